@@ -185,6 +185,10 @@ def call_builtin(ex, name, args, kwargs, node):
         return V(TTuple([TInt, TInt]), [q, r])
     if name in ('immutables.Map', 'immu.Map') and len(args) == 1 and not kwargs:
         a = ex.val(args[0])
+        if isinstance(a.ty, TSeq) and z3.is_int_value(z3.simplify(a.t[0])) and isinstance(a.ty.elem, TTuple) and len(a.ty.elem.items) == 2:
+            # a list literal of (key, value) pairs
+            n_ = z3.simplify(a.t[0]).as_long()
+            a = V(TTuple([a.ty.elem] * n_), [T.seq_get(a, z3.IntVal(i_)) for i_ in range(n_)])
         if isinstance(a.ty, TTuple) and all(isinstance(x.ty, TTuple) and len(x.t) == 2 for x in a.t) and a.t:
             kty = T._join_all([x.t[0].ty for x in a.t]); vty = T._join_all([x.t[1].ty for x in a.t])
             mv = coerce(V(TTuple([]), []), T.TMap(kty, vty))
